@@ -1,7 +1,7 @@
 (* C04 -- An already balanced reaction passes through unchanged as input-balanced.
    good O s := the validator's verdict on s is Balance and its carbon label is balanced; by C07
    (compare_balance_iff, decompose_exact) the verdict is Balance exactly when the two sides have
-   equal true compositions in every element 1..118 and in charge.  admitted O ins = the stripped
+   equal true compositions in every element 1..118 and in charge.  kept_inputs O ins = the stripped
    inputs whose sides parse (the rows the run returns, in order). *)
 From Coq Require Import String ZArith List Bool.
 From SynRBL Require Import Base.Dict Model.Comp Model.Matcher Model.Pipeline
@@ -13,7 +13,7 @@ Theorem C04_balanced_passthrough_and_converse : forall O db ban fuel t tmsg ins 
   run O db ban fuel t tmsg ins = Done (rows, st) ->
   Forall2 (fun s r =>
     (good O s = true -> solved r = true /\ sby r = Some M_INPUT /\ rxn r = s /\ rinput r = s) /\
-    (sby r = Some M_INPUT -> good O s = true /\ rxn r = s)) (admitted O ins) rows.
+    (sby r = Some M_INPUT -> good O s = true /\ rxn r = s)) (kept_inputs O ins) rows.
 Proof. exact run_balanced_passthrough. Qed.
 
 (* the verdict is about true compositions: Balance <=> equal in every key (C07) *)
